@@ -352,6 +352,14 @@ func (f FlushErrorOnly) WriteHeader(c int)           { f.R.WriteHeader(c) }
 func (f FlushErrorOnly) Write(p []byte) (int, error) { return f.R.Write(p) }
 func (f FlushErrorOnly) FlushError() error           { f.R.Flush(); return nil }
 
+// NoFlush offers neither Flush, FlushError nor Unwrap (what http.TimeoutHandler hands its
+// inner handler).
+type NoFlush struct{ R *Recorder }
+
+func (f NoFlush) Header() http.Header         { return f.R.Header() }
+func (f NoFlush) WriteHeader(c int)           { f.R.WriteHeader(c) }
+func (f NoFlush) Write(p []byte) (int, error) { return f.R.Write(p) }
+
 type UnwrapOnly struct{ R http.ResponseWriter }
 
 func (u UnwrapOnly) Header() http.Header         { return u.R.Header() }
